@@ -53,6 +53,8 @@ def mesh_names(tier):
 
 def cases(tier, seed):
     out = []
+    for m in ("G1", "G3", "rd40", "G5") if tier == "quick" else ("G1", "G2", "G3", "G4", "G5", "rd40", "rd120_2", "ann39", "ann412", "hex34s"):
+        out.append(dict(mesh=m, seed=seed, areas="one", history="smoothed_derived"))
     for m in mesh_names(tier):
         for sd in (seed,) if tier == "quick" else (seed, seed + 1):
             for ap in W_ALPH:
@@ -118,6 +120,25 @@ def run_case(case):
     res = CaseResult()
     res.key = case_key(case)
     base = get_mesh(case["mesh"])
+    if case.get("history") == "smoothed_derived":
+        # the mesh has a history: a smoothed mesh was derived from it (Mesh.smooth returns a new mesh); the identities are then
+        # checked on the original object, which must be untouched
+        from tdgl.finite_volume import Mesh
+
+        base = Mesh.from_triangulation(np.array(base.sites), np.array(base.elements))  # private object (fixtures are shared)
+        before = {nm: np.array(getattr(base, nm)) for nm in ("sites", "areas", "elements", "boundary_indices", "dual_sites")}
+        before.update({"edge." + nm: np.array(getattr(base.edge_mesh, nm)) for nm in ("centers", "edges", "directions", "edge_lengths", "dual_edge_lengths")})
+        try:
+            derived = base.smooth(2)
+            res.count("derived_mesh_moved_sites", int(not np.array_equal(derived.sites, before["sites"])))
+        except ValueError as exc:
+            if "Malformed Voronoi cell" not in str(exc):
+                raise
+            res.count("smoothing_refused")  # the library declines to build a dual mesh for the smoothed sites; the original is still checked
+        for nm, old in before.items():
+            now = getattr(base.edge_mesh, nm[5:]) if nm.startswith("edge.") else getattr(base, nm)
+            if not np.array_equal(np.asarray(now), old):
+                res.violate("mesh-changed-by-deriving-a-smoothed-mesh", attribute=nm, detail={"mesh": case["mesh"]})
     n, m = len(base.sites), len(base.edge_mesh.edges)
     rng = np.random.default_rng([case["seed"], 303])
     pats_a = {"one": np.ones(n), "alt": np.where(np.arange(n) % 2, 0.5, 2.0), "rnd": 10 ** rng.uniform(-1, 1, n)}
